@@ -786,6 +786,10 @@ def main(argv):
     except HarnessError as e:
         log("HARNESS FAILURE: %s" % e)
         return 2
+    except Exception:                    # anything unexpected in the driver itself is a harness failure (exit 2), never a verdict
+        import traceback
+        log("HARNESS FAILURE: unexpected exception in the driver\n" + traceback.format_exc())
+        return 2
 
 
 if __name__ == "__main__":
